@@ -277,7 +277,12 @@ fn session(rng: &mut Rng, stats: &mut Stats, nontrivial: &mut Vec<u64>) -> Resul
             document(rng)
         };
         let doc_json = json!({"uri": uri, "text": text.split('\n').collect::<Vec<_>>(), "message_index": k});
-        if latest[u].is_none() {
+        // an editor may close and re-open a document: the server then sees a second didOpen for a known URI
+        let reopen = latest[u].is_some() && rng.chance(1, 4);
+        if reopen && rng.coin() {
+            srv.notify("textDocument/didClose", json!({"textDocument": {"uri": uri}})).map_err(inc)?;
+        }
+        if latest[u].is_none() || reopen {
             srv.notify("textDocument/didOpen", json!({"textDocument": {"uri": uri, "languageId": "basic", "version": 1, "text": text}}))
         } else {
             srv.notify("textDocument/didChange", json!({"textDocument": {"uri": uri, "version": k + 2}, "contentChanges": [{"text": text}]}))
@@ -322,7 +327,7 @@ fn session(rng: &mut Rng, stats: &mut Stats, nontrivial: &mut Vec<u64>) -> Resul
             nontrivial.push(hash_str(&text));
         }
         // semantic tokens for some documents (always for the latest text of that uri)
-        if rng.chance(1, 2) {
+        if rng.chance(2, 3) {
             let id = srv.request("textDocument/semanticTokens/full", json!({"textDocument": {"uri": uri}})).map_err(inc)?;
             let resp = match srv.wait_for(|v| v.get("id").and_then(|x| x.as_u64()) == Some(id)) {
                 Ok(v) => v,
